@@ -17,6 +17,9 @@ func genCmdCase(r *Rand, form string, sz caseSize) *Case {
 	nrec := r.Range(1, 8)
 	if sz.many {
 		nrec = r.Range(60, 150)
+		if r.P(0.35) {
+			nrec = r.Range(49, 70) // right at the 50+threads / NumCPU+50 channel capacities
+		}
 	}
 	if sz.min3 && nrec < 3 {
 		nrec = r.Range(3, 8)
